@@ -305,6 +305,15 @@ func (m *Master) acceptLoop() {
 			return
 		}
 		m.mu.Lock()
+		select {
+		case <-m.done:
+			// accepted while Close was already under way: Close will not see this
+			// connection in m.open any more, so nobody else would ever close it
+			m.mu.Unlock()
+			c.Close()
+			return
+		default:
+		}
 		idx := len(m.conns)
 		cl := &ConnLog{Index: idx, acks: make(chan struct{}, 4096)}
 		m.conns = append(m.conns, cl)
